@@ -6,6 +6,7 @@ import (
 	"context"
 	"encoding/json"
 	"errors"
+	"net/url"
 
 	"github.com/ipfs/go-cid"
 	jsoniter "github.com/json-iterator/go"
@@ -73,12 +74,85 @@ func verifC08CidString(c cid.Cid) string {
 
 func randomRequestID() string { return "verif-request" }
 
+// --- reverse proxy (C08.http_proxy) -----------------------------------------------------------------
+// The proxy target is configuration, not request input: urlx / net/url are cut to a fixed parsed
+// target. proxyToAlternativeRPCServer (fasthttp client, library) is replaced by a model: the
+// upstream is unreachable (JSON error reply) or answers (status + body copied); a getVersion
+// answer goes through the REAL tryEnrichGetVersion.
+
+func verifC08ParseURL(target string, real func(string) (*url.URL, error)) (*url.URL, error) {
+	return &url.URL{Scheme: "https", Host: "upstream.example:8899"}, nil
+}
+func verifC08URLHost(u *url.URL) string { return "upstream.example" }
+func verifC08URLPort(u *url.URL) string { return "8899" }
+
+var (
+	verifC08Proxied       int
+	verifC08UpstreamError bool // the upstream answered getVersion with a JSON-RPC error
+	verifC08UpstreamBad   bool // the upstream answer is not a JSON-RPC response / its result is not an object
+)
+
+func proxyToAlternativeRPCServer(
+	handler *MultiEpoch,
+	lsConf *ListenerConfig,
+	proxy *fasthttp.HostClient,
+	reqCtx *fasthttp.RequestCtx,
+	rpcRequest *jsonrpc2.Request,
+	body []byte,
+	reqID string,
+) {
+	verifAssert(proxy != nil && lsConf != nil && lsConf.ProxyConfig != nil && rpcRequest != nil, "C08.http_proxy: proxying without a configured proxy")
+	verifC08Proxied++
+	if verifChoice("upstream.reachable", 2) == 0 {
+		replyJSON(reqCtx, 500, nil)
+		return
+	}
+	verifC08SetStatus(reqCtx, 200)
+	if rpcRequest.Method == "getVersion" {
+		verifC08UpstreamError, verifC08UpstreamBad = false, false
+		switch verifChoice("upstream.getVersion", 3) {
+		case 1:
+			verifC08UpstreamError = true
+		case 2:
+			verifC08UpstreamBad = true
+		}
+		_, _ = handler.tryEnrichGetVersion([]byte("opaque-upstream-body"))
+	}
+}
+
 // body decoding: fasterJson.Unmarshal(body, &rpcRequest) runs jsonrpc2.Request.UnmarshalJSON
 // (library): a syntax error / missing method, or a request with a method string and params that
 // are nil (member missing) or raw bytes.
 type verifC08HTTPJSON struct{ verifC08JSON }
 
 func (j verifC08HTTPJSON) Unmarshal(data []byte, v interface{}) error {
+	switch t := v.(type) {
+	case *jsonrpc2.Response:
+		// upstream answer (tryEnrichGetVersion)
+		if verifC08UpstreamBad && verifChoice("upstream.bad", 2) == 0 {
+			return errors.New("verif: upstream answer is not a JSON-RPC response")
+		}
+		if verifC08UpstreamError {
+			t.Error = &jsonrpc2.Error{Code: -32000, Message: "upstream error"}
+			return nil
+		}
+		if verifChoice("upstream.result", 2) == 1 {
+			res := json.RawMessage("{opaque}")
+			t.Result = &res
+		}
+		return nil
+	case *map[string]any:
+		if verifC08UpstreamBad {
+			return errors.New("verif: upstream result is not an object")
+		}
+		if verifChoice("upstream.result.null", 2) == 1 {
+			// "result":null decodes without error and leaves the map nil
+			verifKnownFinding("C08-proxy-version-null-result", true)
+			return nil
+		}
+		*t = map[string]any{"solana-core": "1.16.7", "feature-set": 1.0}
+		return nil
+	}
 	if r, ok := v.(*jsonrpc2.Request); ok {
 		if verifC08BodyFails {
 			return errors.New("verif: invalid request body")
@@ -112,9 +186,12 @@ func VerifC08HTTP() {
 	nEpochs := verifChoice("epochs", 2)
 	multi := verifC08Server(nEpochs, 0, 1|2|8, 1)
 	var lsConf *ListenerConfig
-	if verifChoice("listener.config", 2) == 1 {
+	if verifParam("proxy", 0) == 1 {
+		lsConf = &ListenerConfig{ProxyConfig: &ProxyConfig{Target: "https://upstream.example:8899", ProxyFailedRequests: verifChoice("proxy.failed-requests", 2) == 1}}
+	} else if verifChoice("listener.config", 2) == 1 {
 		lsConf = &ListenerConfig{} // no proxy configured
 	}
+	verifC08Proxied = 0
 	handler := newMultiEpochHandler(multi, lsConf)
 
 	rpcPath := false
